@@ -96,7 +96,10 @@ CtlVals == {"c00", "c01", "c02", "c03", "c04", "c05", "c06", "c07", "c08", "c09"
             "c1e", "c1f"}                    \* every control character, spelled \u00XX
 MayVals == {"u4_sur", "p2_sur", "p14_sur", "p16_sur"}   \* (planes 1, 2, 14, 16)
 \*                       \* surrogate-pair spelling: outside the must-domain
-AllVals == Vals \cup CtlVals \cup MayVals
+\* big values: with the two-tag shape of F_big the binary tag section is 20 + n bytes, and its length field is a u16
+BigFit  == {"big65510", "big65515"}              \* 65 530, 65 535: representable
+BigOver == {"big65516", "big65518", "big65524"}  \* 65 536 ..: not representable - a parser may only refuse them
+AllVals == Vals \cup CtlVals \cup MayVals \cup BigFit \cup BigOver
 Char(v) == CASE v = "uplain" -> "plain" [] v = "slash_esc" -> "slash_lit" [] v \in {"u2_esc", "u2_ESC"} -> "u2_lit"
              [] v = "u3_esc" -> "u3_lit" [] v = "u4_sur" -> "u4_lit" [] v = "p2_sur" -> "p2_lit" [] v = "p14_sur" -> "p14_lit" [] v = "p16_sur" -> "p16_lit"
              [] v = "nl" -> "c0a" [] v = "tab" -> "c09" [] v = "cr" -> "c0d" [] v = "bs" -> "c08" [] v = "ff" -> "c0c"
@@ -134,7 +137,7 @@ Step(a, m) ==
   CASE m.k = "unk" -> [a EXCEPT !.may = @ \/ (m.key \in MayKeys)]      \* any value shape: skipped
     [] m.k = "tag" -> IF m.l \in a.letters THEN [a EXCEPT !.dup = TRUE]
                       ELSE [a EXCEPT !.letters = @ \cup {m.l}, !.tags = @ \cup {<<m.l, Chars(m.v)>>},
-                                     !.sur = @ \/ AnyIn(m.v, MayVals)]
+                                     !.sur = @ \/ AnyIn(m.v, MayVals \cup BigOver)]
     [] OTHER       -> IF m.k \in a.seen THEN [a EXCEPT !.dup = TRUE] ELSE StepNamed(a, m)
 
 Run(mem) == FoldLeft(Step, Acc0, mem)
@@ -226,8 +229,13 @@ F_lists == \E ni \in 0..3, na \in 0..3, nk \in 0..3, nt \in 0..3, r \in ListOrde
 
 (* 7: tag values of every escape class / spelling: singles (incl. every control character), pairs, triples *)
 VCtx(c, t) == CASE c = 0 -> <<t>> [] c = 1 -> <<Def("ids"), t, Def("until")>> [] OTHER -> <<TagP, t>>
-F_tagvals == \/ \E x \in AllVals, c \in 0..2 : doc = Mk("tagval1", VCtx(c, T(LE, <<x>>)), NoWs)
+F_tagvals == \/ \E x \in AllVals \ (BigFit \cup BigOver), c \in 0..2 : doc = Mk("tagval1", VCtx(c, T(LE, <<x>>)), NoWs)
              \/ \E x \in Vals, y \in Vals, c \in 0..1 : doc = Mk("tagval2", VCtx(2 * c, T(LT, <<x, y>>)), NoWs)
+\* 7b: a tag section at the u16 limit whose LAST member in the text is an empty list, in both member orders
+F_big == \E x \in BigFit \cup BigOver, o \in 0..1, c \in 0..1 :
+           LET big == T(LA, <<x>>)  empty == T(LE, <<>>)
+               two == IF o = 0 THEN <<big, empty>> ELSE <<empty, big>>
+           IN doc = Mk("big", IF c = 0 THEN two ELSE <<Def("kinds")>> \o two, NoWs)
 ValSeq == SetToSeq(Vals)
 F_tagvals3 == \E i \in 1..Len(ValSeq), j \in 1..Len(ValSeq), k \in 1..Len(ValSeq) :
                 /\ Pick(i * 841 + j * 29 + k)
@@ -293,7 +301,7 @@ F_hand == \/ \E x \in HandVals, b \in 1..Len(HBase) : doc = Mk("hand", HBase[b] 
           \/ \E a \in Letters : doc = Mk("hand", <<Def("kinds"), T(a, <<"plain">>), T((a % 52) + 1, <<>>)>>, NoWs)
 
 Fam(i) == CASE i = 0 -> F_named0 [] i = 1 -> F_named1 [] i = 2 -> F_named2 [] i = 3 -> F_letters [] i = 4 -> F_triples
-            [] i = 5 -> F_quads [] i = 6 -> F_lists [] i = 7 -> (F_tagvals \/ F_tagvals3) [] i = 8 -> F_unknown
+            [] i = 5 -> F_quads [] i = 6 -> F_lists [] i = 7 -> (F_tagvals \/ F_tagvals3 \/ F_big) [] i = 8 -> F_unknown
             [] i = 9 -> F_unknown2 [] i = 10 -> F_ws [] i = 11 -> F_ints [] i = 12 -> F_may [] i = 13 -> F_mixed
             [] OTHER -> F_hand
 Init == \E i \in 0..14 : On(i) /\ Fam(i)
